@@ -19,7 +19,8 @@ pub struct Scenario {
 pub fn scenario(subseed: u64, tree: &Tree, small: bool) -> Scenario {
     let mut rng = Rng::new(subseed);
     let dirs = ["syn_rec", "syn_iface"];
-    let nthreads = if small { 2 } else { rng.range(2, 3) };
+    // more threads per interpreted process = more pairs of racing threads per interpreted second
+    let nthreads = if small { 2 } else { rng.range(2, 4) };
     // threads on the same files contend on the caches and on per-schema data; threads on different
     // files contend on process-wide tables. Options are mostly shared by all calls of a scenario so
     // that option-dependent shared state is exercised by several threads at once.
@@ -36,7 +37,7 @@ pub fn scenario(subseed: u64, tree: &Tree, small: bool) -> Scenario {
         let n = if !small && rng.chance(1, 4) { 2 } else { 1 };
         let mut calls = vec![];
         for _ in 0..n {
-            let d = if same_dir { d0 } else { dirs[(t + rng.below(2) * (t / 2)) % 2] };
+            let d = if same_dir { d0 } else { dirs[(t + rng.below(2)) % 2] };
             let k = *rng.pick(&[0usize, 0, 1, 3, 4]); // absolute spellings only (cwd differs under cargo)
             let qf = if rng.chance(1, 4) { "query_b.graphql" } else { "query.graphql" };
             let mut c = json!({"entry": "file", "query": tree.spell(d, qf, k), "schema": tree.spell(d, "schema.graphql", if rng.chance(2, 3) { 0 } else { k }), "opts": if rng.chance(4, 5) { shared_opts.clone() } else { json!({}) }});
